@@ -298,13 +298,13 @@ fn sweep<T: Sc>(ctx: &Ctx, sc: &Scen, depth: usize, only: Option<(Phase, Vec<usi
             s.inc("baseline_traces");
             s.add("states", 1);
         });
-        // a fit that needs more than 600 model calls is not expected on any tree that satisfies the properties (patience is
+        // a fit that needs more than 1500 model calls is not expected on any tree that satisfies the properties (patience is
         // 100 x (P+1)); beyond that the fault index is capped and the cap is reported (evidence: caps_hit, exhaustive = false)
-        let n = base.calls.min(600);
-        if base.calls > 600 {
+        let n = base.calls.min(1500);
+        if base.calls > 1500 {
             ctx.with(|s| {
                 s.inc("caps_hit");
-                s.notes.push(format!("fault sweep capped at call index 600 of {} ({:?})", base.calls, ph));
+                s.notes.push(format!("fault sweep capped at call index 1500 of {} ({:?})", base.calls, ph));
             });
         }
         for k in 0..n {
@@ -339,6 +339,10 @@ fn report(ctx: &Ctx, sc: &Scen, ph: Phase, h: &[usize], k: u64, mode: FaultMode,
             s.violate(prop, sig, cj.clone(), detail.clone());
             if prop == "C03" {
                 s.violate("C09", sig, cj.clone(), detail.clone());
+            }
+            // "they never panic" (C08) holds for every model honouring the trait contract - also one that fails transiently
+            if sig == "panic" {
+                s.violate("C08", sig, cj.clone(), detail.clone());
             }
             // "returns the fit result as Err - in every build profile, without panicking" is a clause of C12
             if ph == Phase::FitStats && (sig == "panic" || sig.starts_with("statistics-ok")) {
